@@ -2,6 +2,7 @@ import Pyunicorn.Lemmas.NsiBetw
 import Pyunicorn.Model.NsiRw
 import Mathlib.Algebra.BigOperators.Ring.Finset
 import Mathlib.Algebra.BigOperators.Fin
+import Mathlib.Algebra.Order.BigOperators.Group.Finset
 import Mathlib.Algebra.Order.Field.Rat
 import Mathlib.Tactic.Ring
 import Mathlib.Tactic.FieldSimp
@@ -661,5 +662,295 @@ theorem solvesR_sound (n : Nat) (M T : Nat → Nat → Rat) (h : solvesR n M T =
   intro r i j hr hi hj
   simp only [solvesR, List.all_eq_true, List.mem_range] at h
   exact eq_of_beq (h r hr i hi j hj)
+
+/-! ### the code's grounded inverse satisfies the two conditions (inverse as an assumed operation) -/
+
+/-- what the code's `sp_M_inv` is: zero last row / column, and the leading block a two-sided
+inverse of the leading block of `M` (the assumed operation `inv`) -/
+structure IsGroundedInv (n : Nat) (M T : Nat → Nat → Rat) : Prop where
+  pad_row : ∀ j, T (n - 1) j = 0
+  pad_col : ∀ i, T i (n - 1) = 0
+  left : ∀ i j, i < n - 1 → j < n - 1 →
+    sumR (n - 1) (fun c => T i c * M c j) = if i = j then 1 else 0
+  right : ∀ i j, i < n - 1 → j < n - 1 →
+    sumR (n - 1) (fun c => M i c * T c j) = if i = j then 1 else 0
+
+theorem sumR_pred (n : Nat) (hn : 0 < n) (f : Nat → Rat) :
+    sumR n f = sumR (n - 1) f + f (n - 1) := by
+  obtain ⟨m, rfl⟩ : ∃ m, n = m + 1 := ⟨n - 1, by omega⟩
+  simp [sumR_succ]
+
+/-- `M T = 1 − e_g 1ᵀ` -/
+theorem grounded_MT (n : Nat) (hn : 0 < n) (M T : Nat → Nat → Rat) (h : IsGroundedInv n M T)
+    (hcol : ∀ j, j < n → sumR n (fun r => M r j) = 0) (r i : Nat) (hr : r < n) (hi : i < n) :
+    sumR n (fun c => M r c * T c i) = (if r = i then 1 else 0) - (if r = n - 1 then 1 else 0) := by
+  rw [sumR_pred n hn, h.pad_row, mul_zero, add_zero]
+  by_cases hig : i = n - 1
+  · -- column `g` of `T` is zero
+    have : sumR (n - 1) (fun c => M r c * T c i) = 0 := by
+      rw [← sumR_zero (n - 1)]
+      apply sumR_congr
+      intro c _
+      rw [hig, h.pad_col, mul_zero]
+    rw [this, hig]
+    by_cases hrg : r = n - 1 <;> simp [hrg]
+  · have hi' : i < n - 1 := by omega
+    by_cases hrg : r = n - 1
+    · -- last row: minus the sum of the other rows
+      have hM : ∀ c, c < n - 1 → M r c = - sumR (n - 1) (fun r' => M r' c) := by
+        intro c hc
+        have := hcol c (by omega)
+        rw [sumR_pred n hn] at this
+        rw [hrg]; linarith
+      have h1 : sumR (n - 1) (fun c => M r c * T c i)
+          = - sumR (n - 1) (fun r' => sumR (n - 1) (fun c => M r' c * T c i)) := by
+        rw [sumR_comm, ← neg_one_mul, sumR_mul_left]
+        apply sumR_congr
+        intro c hc
+        rw [hM c hc, neg_mul, sumR_mul_right]
+        ring
+      have h2 : sumR (n - 1) (fun r' => sumR (n - 1) (fun c => M r' c * T c i))
+          = sumR (n - 1) (fun r' => if r' = i then 1 else 0) := by
+        apply sumR_congr
+        intro r' hr'
+        rw [h.right r' i hr' hi']
+      rw [h1, h2, sumR_ite_eq _ _ hi' (fun _ => 1)]
+      have hne : ¬ r = i := by omega
+      rw [if_neg hne, if_pos hrg]
+      ring
+    · have hr' : r < n - 1 := by omega
+      rw [h.right r i hr' hi']
+      simp [hrg]
+
+theorem grounded_solvesR (n : Nat) (hn : 0 < n) (M T : Nat → Nat → Rat) (h : IsGroundedInv n M T)
+    (hcol : ∀ j, j < n → sumR n (fun r => M r j) = 0) : SolvesR n M T := by
+  intro r i j hr hi hj
+  have h1 := grounded_MT n hn M T h hcol r i hr hi
+  have h2 := grounded_MT n hn M T h hcol r j hr hj
+  have : sumR n (fun c => M r c * (T c i - T c j))
+      = sumR n (fun c => M r c * T c i) - sumR n (fun c => M r c * T c j) := by
+    rw [← sumR_sub]; apply sumR_congr; intro c _; ring
+  rw [this, h1, h2]; ring
+
+/-- `T M = 1 − (w / w_g) e_gᵀ` on the rows `c ≠ g`; row `g` vanishes -/
+theorem grounded_TM (n : Nat) (hn : 0 < n) (M T : Nat → Nat → Rat) (w : Nat → Rat)
+    (h : IsGroundedInv n M T) (hwg : w (n - 1) ≠ 0)
+    (hker : ∀ r, r < n → sumR n (fun e => M r e * w e) = 0) (c e : Nat) (hc : c < n) (he : e < n) :
+    sumR n (fun r => T c r * M r e)
+      = if c = n - 1 then 0
+        else (if c = e then 1 else 0) - (if e = n - 1 then w c / w (n - 1) else 0) := by
+  rw [sumR_pred n hn, h.pad_col, zero_mul, add_zero]
+  by_cases hcg : c = n - 1
+  · rw [if_pos hcg, ← sumR_zero (n - 1)]
+    apply sumR_congr
+    intro r _
+    rw [hcg, h.pad_row, zero_mul]
+  · rw [if_neg hcg]
+    have hc' : c < n - 1 := by omega
+    by_cases heg : e = n - 1
+    · have hce : ¬ c = e := by omega
+      rw [if_neg hce, if_pos heg]
+      have hM : ∀ r, r < n - 1 → M r e = - (sumR (n - 1) (fun e' => M r e' * w e')) / w (n - 1) := by
+        intro r hr
+        have := hker r (by omega)
+        rw [sumR_pred n hn] at this
+        rw [heg]
+        field_simp
+        linarith
+      have h1 : sumR (n - 1) (fun r => T c r * M r e)
+          = - (sumR (n - 1) (fun e' => w e' * sumR (n - 1) (fun r => T c r * M r e'))) / w (n - 1) := by
+        have : sumR (n - 1) (fun e' => w e' * sumR (n - 1) (fun r => T c r * M r e'))
+            = sumR (n - 1) (fun r => T c r * sumR (n - 1) (fun e' => M r e' * w e')) := by
+          have h3 : ∀ e', w e' * sumR (n - 1) (fun r => T c r * M r e')
+              = sumR (n - 1) (fun r => T c r * (M r e' * w e')) := by
+            intro e'
+            rw [sumR_mul_left]; apply sumR_congr; intro r _; ring
+          simp only [h3]
+          rw [sumR_comm]
+          apply sumR_congr
+          intro r _
+          rw [sumR_mul_left]
+        rw [this]
+        have h4 : sumR (n - 1) (fun r => T c r * M r e)
+            = sumR (n - 1) (fun r => (T c r * sumR (n - 1) (fun e' => M r e' * w e'))
+                * (-1 / w (n - 1))) := by
+          apply sumR_congr
+          intro r hr
+          rw [hM r hr]
+          ring
+        rw [h4, ← sumR_mul_right]
+        ring
+      have h2 : sumR (n - 1) (fun e' => w e' * sumR (n - 1) (fun r => T c r * M r e'))
+          = sumR (n - 1) (fun e' => if e' = c then w e' else 0) := by
+        apply sumR_congr
+        intro e' he'
+        rw [h.left c e' hc' he']
+        by_cases hh : c = e'
+        · have : e' = c := hh.symm
+          simp [hh]
+        · have : ¬ e' = c := fun x => hh x.symm
+          simp [hh, this]
+      rw [h1, h2, sumR_ite_eq _ _ hc' w]
+      ring
+    · have he' : e < n - 1 := by omega
+      rw [h.left c e hc' he', if_neg heg]
+      ring
+
+/-- for every row `x ⊥ w`: `x T M = x` -/
+theorem grounded_xTM (n : Nat) (hn : 0 < n) (M T : Nat → Nat → Rat) (w : Nat → Rat)
+    (h : IsGroundedInv n M T) (hwg : w (n - 1) ≠ 0)
+    (hker : ∀ r, r < n → sumR n (fun e => M r e * w e) = 0) (x : Nat → Rat)
+    (hx : sumR n (fun c => x c * w c) = 0) (e : Nat) (he : e < n) :
+    sumR n (fun c => x c * sumR n (fun r => T c r * M r e)) = x e := by
+  have h1 : sumR n (fun c => x c * sumR n (fun r => T c r * M r e))
+      = sumR n (fun c => x c * (if c = n - 1 then 0
+        else (if c = e then 1 else 0) - (if e = n - 1 then w c / w (n - 1) else 0))) := by
+    apply sumR_congr
+    intro c hc
+    rw [grounded_TM n hn M T w h hwg hker c e hc he]
+  rw [h1, sumR_pred n hn, if_pos rfl, mul_zero, add_zero]
+  rw [sumR_pred n hn] at hx
+  by_cases heg : e = n - 1
+  · have h2 : sumR (n - 1) (fun c => x c * (if c = n - 1 then 0
+          else (if c = e then 1 else 0) - (if e = n - 1 then w c / w (n - 1) else 0)))
+        = sumR (n - 1) (fun c => (x c * w c) * (-1 / w (n - 1))) := by
+      apply sumR_congr
+      intro c hc
+      have hcg : ¬ c = n - 1 := by omega
+      have hce : ¬ c = e := by omega
+      rw [if_neg hcg, if_neg hce, if_pos heg]
+      ring
+    rw [h2, ← sumR_mul_right, heg]
+    have : sumR (n - 1) (fun c => x c * w c) = - (x (n - 1) * w (n - 1)) := by linarith
+    rw [this]
+    field_simp
+  · have he' : e < n - 1 := by omega
+    have h2 : sumR (n - 1) (fun c => x c * (if c = n - 1 then 0
+          else (if c = e then 1 else 0) - (if e = n - 1 then w c / w (n - 1) else 0)))
+        = sumR (n - 1) (fun c => if c = e then x c else 0) := by
+      apply sumR_congr
+      intro c hc
+      have hcg : ¬ c = n - 1 := by omega
+      rw [if_neg hcg, if_neg heg]
+      by_cases hce : c = e <;> simp [hce]
+    rw [h2, sumR_ite_eq _ _ he' x]
+
+/-! ### the two conditions for `sp_M` -/
+
+theorem kstar_pos (G : Gr) (hw : ∀ k, k < G.n → 0 < G.w k) (i : Nat) (hi : i < G.n) :
+    0 < kstar G i := by
+  unfold kstar
+  rw [sumR_eq_finset]
+  have hnn : ∀ j ∈ range G.n, 0 ≤ G.w j * aplus G i j := by
+    intro j hj
+    have := hw j (Finset.mem_range.mp hj)
+    unfold aplus
+    split <;> nlinarith
+  have hle := Finset.single_le_sum hnn (Finset.mem_range.mpr hi)
+  have : G.w i * aplus G i i = G.w i := by simp [aplus]
+  rw [this] at hle
+  exact lt_of_lt_of_le (hw i hi) hle
+
+/-- `sp_M w = 0` -/
+theorem newmanM_ker (G : Gr) (hw : ∀ k, k < G.n → 0 < G.w k) (r : Nat) (hr : r < G.n) :
+    sumR G.n (fun e => newmanM G r e * G.w e) = 0 := by
+  have h1 : sumR G.n (fun e => newmanM G r e * G.w e)
+      = sumR G.n (fun e => (if e = r then kstar G r * G.w e else 0)
+          - G.w r * (G.w e * aplus G r e)) := by
+    apply sumR_congr
+    intro e he
+    rw [newmanM_eq G r e (ne_of_gt (hw r hr)) (ne_of_gt (hw e he))]
+    by_cases h : r = e
+    · subst h; simp only [if_true]; ring
+    · have h' : ¬ e = r := fun x => h x.symm
+      simp only [h, h', if_false]; ring
+  rw [h1, sumR_sub, sumR_ite_eq _ _ hr, ← sumR_mul_left]
+  unfold kstar
+  ring
+
+/-- the columns of `sp_M` sum to zero (undirected network: `A⁺` symmetric) -/
+theorem newmanM_colsum (G : Gr) (hw : ∀ k, k < G.n → G.w k ≠ 0)
+    (hsym : ∀ i j, aplus G i j = aplus G j i) (j : Nat) (hj : j < G.n) :
+    sumR G.n (fun r => newmanM G r j) = 0 := by
+  have h1 : sumR G.n (fun r => newmanM G r j)
+      = sumR G.n (fun r => (if r = j then kstar G r else 0) - G.w r * aplus G j r) := by
+    apply sumR_congr
+    intro r hr
+    rw [newmanM_eq G r j (hw r hr) (hw j hj), hsym r j]
+  rw [h1, sumR_sub, sumR_ite_eq _ _ hj]
+  unfold kstar
+  ring
+
+theorem nsiQ_row_sum (G : Gr) (hw : ∀ k, k < G.n → 0 < G.w k) (s : Nat) (hs : s < G.n) :
+    sumR G.n (fun c => nsiQ G s c * G.w c) = 1 := by
+  have hk := ne_of_gt (kstar_pos G hw s hs)
+  have : sumR G.n (fun c => nsiQ G s c * G.w c) = 1 / kstar G s * sumR G.n (fun c => G.w c * aplus G s c) := by
+    rw [sumR_mul_left]
+    apply sumR_congr
+    intro c _
+    unfold nsiQ
+    ring
+  rw [this]
+  show 1 / kstar G s * kstar G s = 1
+  field_simp
+
+/-- **the code's grounded inverse does what the theorem asks** (left) -/
+theorem grounded_solvesL_newman (G : Gr) (hn : 0 < G.n) (hw : ∀ k, k < G.n → 0 < G.w k)
+    (T : Nat → Nat → Rat) (h : IsGroundedInv G.n (newmanM G) T) :
+    SolvesL G.n (nsiQ G) (newmanM G) T := by
+  intro s t e hs ht he
+  apply grounded_xTM G.n hn (newmanM G) T G.w h (ne_of_gt (hw _ (by omega)))
+    (fun r hr => newmanM_ker G hw r hr) (fun c => nsiQ G s c - nsiQ G t c) _ e he
+  have : sumR G.n (fun c => (nsiQ G s c - nsiQ G t c) * G.w c)
+      = sumR G.n (fun c => nsiQ G s c * G.w c) - sumR G.n (fun c => nsiQ G t c * G.w c) := by
+    rw [← sumR_sub]; apply sumR_congr; intro c _; ring
+  rw [this, nsiQ_row_sum G hw s hs, nsiQ_row_sum G hw t ht]
+  ring
+
+theorem aplus_symm (G : Gr) (hsym : ∀ i j, G.adj i j = G.adj j i) (i j : Nat) :
+    aplus G i j = aplus G j i := by
+  unfold aplus
+  rw [hsym i j]
+  by_cases h : i = j
+  · subst h; rfl
+  · have h' : ¬ j = i := fun x => h x.symm
+    simp [h, h']
+
+/-- **Node-splitting invariance of `nsi_newman_betweenness` with the matrix inverse as an
+assumed operation**: `T`, `T'` are what the code stores in `sp_M_inv` — zero last row and
+column, the leading block a two-sided inverse of the leading block of `sp_M` — on the
+network and on its split copy (where the grounded last node is the new twin). -/
+theorem nsiNewman_split_grounded (G : Gr) (v : Nat) (p : Rat) (hv : v < G.n) (hp0 : 0 < p)
+    (hp1 : p < 1) (hw : ∀ k, k < G.n → 0 < G.w k) (hloop : ∀ i, G.adj i i = false)
+    (hsym : ∀ i j, G.adj i j = G.adj j i) (T T' : Nat → Nat → Rat)
+    (hT : IsGroundedInv G.n (newmanM G) T)
+    (hT' : IsGroundedInv (G.n + 1) (newmanM (split G v p)) T') (ends : Bool)
+    (a : Nat) (ha : a < G.n + 1) :
+    nsiNewman (split G v p) T' ends a = nsiNewman G T ends (collapse G.n v a) := by
+  have hn : 0 < G.n := by omega
+  apply nsiNewman_split_lemma G v p hv hp0 hp1 hw hloop T T'
+    (grounded_solvesL_newman G hn hw T hT) _ ends a ha
+  apply grounded_solvesR (G.n + 1) (by omega) _ T' hT'
+  intro j hj
+  apply newmanM_colsum (split G v p) (fun k hk => split_w_ne_zero G v p hv hp0 hp1 hw k hk) _ j hj
+  intro i j
+  rw [aplus_split G v p hv, aplus_split G v p hv, aplus_symm G hsym]
+
+/-- zero padding of a reduced inverse, as in `sp_M_inv = lil_matrix((N, N)); sp_M_inv[:-1,:-1] = …` -/
+def padInv (n : Nat) (R : Nat → Nat → Rat) : Nat → Nat → Rat :=
+  fun i j => if i < n - 1 ∧ j < n - 1 then R i j else 0
+
+def groundedBlockOk (n : Nat) (M T : Nat → Nat → Rat) : Bool :=
+  (List.range (n - 1)).all fun i => (List.range (n - 1)).all fun j =>
+    (sumR (n - 1) (fun c => T i c * M c j) == if i = j then 1 else 0) &&
+    (sumR (n - 1) (fun c => M i c * T c j) == if i = j then 1 else 0)
+
+/-- an exact check that decides `IsGroundedInv` for a padded matrix -/
+theorem isGroundedInv_of_check (n : Nat) (M R : Nat → Nat → Rat)
+    (h : groundedBlockOk n M (padInv n R) = true) : IsGroundedInv n M (padInv n R) := by
+  simp only [groundedBlockOk, List.all_eq_true, List.mem_range, Bool.and_eq_true] at h
+  refine ⟨fun j => by simp [padInv], fun i => by simp [padInv], ?_, ?_⟩
+  · intro i j hi hj; exact eq_of_beq (h i hi j hj).1
+  · intro i j hi hj; exact eq_of_beq (h i hi j hj).2
 
 end Pyunicorn.Nsi
